@@ -257,16 +257,8 @@ class _Plt:
         return _Inert()
 
 
-def ob_plot_history(W, which, kw):
-    """plot() is a reader: attributes computed before or after it are unaffected"""
-    cross = which in ("bode", "coh", "csd", "cf")
-    bins, fs = _fresh(W, cross)
-    if not W.sym and not (fs > 0):
-        return
-    import speckit.analysis as A
-    r = R.mk(W, bins, cross, fs)
-    names = [a for a in ATTRS if getattr(R.mk(W, bins, cross, fs), a) is not None]
-    pre = {a: getattr(r, a) for a in names[::3]}
+def do_plot(W, r, which, kw):
+    """call r.plot(which, **kw): symbolic world with inert matplotlib stand-ins, concrete world with the Agg backend"""
     if W.sym:
         ct = type("ct", (), {"mag2db": staticmethod(lambda m: m)})
         # the result object is already an instance of the fully cloned class; give its module namespace the inert pyplot
@@ -289,6 +281,19 @@ def ob_plot_history(W, which, kw):
             plt.close("all")
         except Exception as e:
             W.note("plot raised %r" % (e,))
+
+
+def ob_plot_history(W, which, kw):
+    """plot() is a reader: attributes computed before or after it are unaffected"""
+    cross = which in ("bode", "coh", "csd", "cf")
+    bins, fs = _fresh(W, cross)
+    if not W.sym and not (fs > 0):
+        return
+    import speckit.analysis as A
+    r = R.mk(W, bins, cross, fs)
+    names = [a for a in ATTRS if getattr(R.mk(W, bins, cross, fs), a) is not None]
+    pre = {a: getattr(r, a) for a in names[::3]}
+    do_plot(W, r, which, kw)
     for a in names:
         base = getattr(R.mk(W, bins, cross, fs), a)
         W.goal("%s unaffected by plot(%s)" % (a, which), _same_value(W, getattr(r, a), base))
